@@ -1340,6 +1340,17 @@ def gen_tiled(ctx, idx):
     c['read_perm_seed'] = r.randrange(1 << 30)
     c['bad'] = None
     c['planes'] = 1
+    four = c['layout'] == '4d'
+    applicable = [k for k, ok in (
+        ('undescribed', not four and c['dtype'] in ('uint8', 'uint16')),
+        ('nonbinary4d', four and c['dtype'] in ('uint8', 'uint16')),
+        ('float_range', isfloat),
+        ('float_nonbinary', isfloat and c['type'] != 'FRACTIONAL'),
+        ('overlap_labelmap', four and c['type'] == 'LABELMAP' and len(c['segs']) > 1),
+        ('channels', four)) if ok]
+    if c['mode'] == 'tpm' and applicable and r.random() < 0.12:
+        c['bad'] = r.choice(applicable)           # an invalid matrix must be refused (and is refused tile-wise by the model)
+        c['pyramid'] = False
     return c
 
 
@@ -1387,6 +1398,28 @@ def run_tiled(ctx, c, reqs, pending):
                             frame_order=[sorted(src_tiles).index(t) for t in src_tiles])
     src_corner = [(a * str_, b * stc) for (a, b) in src_tiles]          # 0-based corner of source frame k
     tpm_mask = build_tiled_mask(c)                                      # (1, R, C[, S])
+    refuse = must_refuse(c, tpm_mask)
+    if refuse:
+        # an invalid matrix: refused by the constructor, and by the model that looks at the tiles
+        import highdicom as hd
+        from gen.sources import seg_description as _sd
+        tr_, tc_ = c['tile_size'] or c['src_tile']
+        try:
+            hd.seg.Segmentation([ds], _relayout(tpm_mask, c['mem']), c['type'], [_sd(s_) for s_ in c['segs']], tile_pixel_array=True,
+                                tile_size=(tr_, tc_), series_instance_uid=hd.UID(), series_number=2, sop_instance_uid=hd.UID(),
+                                instance_number=1, manufacturer='verif', manufacturer_model_name='m', software_versions='1',
+                                device_serial_number='1', max_fractional_value=c['mfv'], omit_empty_frames=c['omit'])
+            built = ('ok', None)
+            ctx.fail(dict(c), f'invalid tiled input accepted ({refuse})', site='refusal/tiled')
+        except Exception as e:  # noqa: BLE001
+            built = ('err', _err_kind(e))
+        ctx.case(stream='tiled', outcome='refused' if built[0] == 'err' else 'ok', must_refuse=refuse, type=c['type'], dtype=c['dtype'])
+        if tpm_mask.ndim == (4 if c['layout'] == '4d' else 3):
+            margs = model_args(dict(c, rows=tr_, cols=tc_, planes=1, src_order=[0], ts='Explicit VR Little Endian'), tpm_mask)
+            margs.update(R=R, C=C)
+            reqs.append(('buildTiled', margs))
+            pending.append((dict(c), 'refusal', built))
+        return
     exp = expected_raw(c, tpm_mask)[0]                                  # (R, C, S)
     alt = near_tie_alternative(c, tpm_mask, exp[None])[0]
     S = len(c['segs'])
